@@ -660,6 +660,10 @@ async fn scn_exhaust(seed: u64, fill: usize, extra: usize, old: usize, young: us
     }
     tokio::time::sleep(Duration::from_millis(30)).await;
     run_extras(extra, &mut next, &mut extras);
+    // a stalled machine: the held answers are (about to be) released before the second batch of extras
+    // could meet a full id space -- this attempt shows no refusal after the wait; it is still run to
+    // its end and judged, and the caller runs another attempt with a longer hold
+    let late = env.now() + 100_000_000 > release_at.load(Ordering::SeqCst);
     // the extras must come back on their own (error); a hang is ended after the release
     let left = (release_at.load(Ordering::SeqCst).saturating_sub(env.now())) / 1_000_000;
     tokio::time::sleep(Duration::from_millis(left + 50)).await;
@@ -693,7 +697,8 @@ async fn scn_exhaust(seed: u64, fill: usize, extra: usize, old: usize, young: us
     }
     env.settle(Duration::from_millis(30), Duration::from_secs(5)).await;
     let env = Arc::try_unwrap(env).map_err(|_| "env-still-shared".to_string())?;
-    Ok(env.finish(&[]))
+    let h = env.finish(&[]);
+    Ok(if late { format!("late {}", h) } else { h })
 }
 
 // ------------------------------------------------------------------ K: the orphaner's threshold
@@ -1162,29 +1167,53 @@ pub fn run_case(case: &str) -> Option<String> {
         Some("N") => rt(num(3).max(1) as usize).block_on(scn_random(num(1), num(2) as usize, true, false)),
         Some("K") => {
             // with more than 1024 abandoned callers the connection must end; if a stalled machine let the
-            // answers go before a tick saw the old orphans, try again with a longer hold
+            // answers go before a tick saw the old orphans, the attempt is kept (judged by the driver as a
+            // run without break) and another one follows with a longer hold: `<history> NEXT <history>`
+            let mut parts: Vec<String> = Vec::new();
             let mut res = Err("not-run".to_string());
             for attempt in 0..3u64 {
-                res = rt(2).block_on(scn_threshold(num(1), num(2) as usize, num(3) as usize, num(4) << attempt));
-                match &res {
-                    Ok(s) if num(2) > 1024 && !s.contains(",close") && attempt < 2 => continue,
-                    Ok(_) => break,
-                    Err(_) => continue,
+                match rt(2).block_on(scn_threshold(num(1), num(2) as usize, num(3) as usize, num(4) << attempt)) {
+                    Ok(h) => {
+                        let again = num(2) > 1024 && !h.contains(",close") && attempt < 2;
+                        parts.push(h);
+                        res = Ok(parts.join(" NEXT "));
+                        if !again {
+                            break;
+                        }
+                    }
+                    Err(e) => res = if parts.is_empty() { Err(e) } else { Ok(parts.join(" NEXT ")) },
                 }
             }
             res
         }
         Some("X") => {
+            // attempts that missed their window are kept (judged by the driver) and followed by another
+            // attempt with a longer hold: `<history> NEXT <history>`
+            let mut parts: Vec<String> = Vec::new();
             let mut res = Err("not-run".to_string());
             for attempt in 0..3u64 {
-                res = rt(2).block_on(scn_exhaust(num(1), num(2) as usize, num(3) as usize, num(4) as usize, num(5) as usize, num(6), num(7) << attempt));
-                if res.is_ok() {
-                    break;
+                match rt(2).block_on(scn_exhaust(num(1), num(2) as usize, num(3) as usize, num(4) as usize, num(5) as usize, num(6), num(7) << attempt)) {
+                    Ok(h) => {
+                        let late = h.starts_with("late ");
+                        parts.push(h.strip_prefix("late ").unwrap_or(&h).to_string());
+                        res = Ok(parts.join(" NEXT "));
+                        if !late {
+                            break;
+                        }
+                    }
+                    Err(e) => res = if parts.is_empty() { Err(e) } else { Ok(parts.join(" NEXT ")) },
                 }
             }
             res
         }
-        Some("G") => rt(2).block_on(scn_oversize(num(1), num(2).max(1) as usize, num(3))),
+        Some("G") => {
+            // one more attempt when the scenario could not start (session setup on a stalled machine)
+            let mut res = rt(2).block_on(scn_oversize(num(1), num(2).max(1) as usize, num(3)));
+            if res.is_err() {
+                res = rt(2).block_on(scn_oversize(num(1), num(2).max(1) as usize, num(3)));
+            }
+            res
+        }
         Some("O") => {
             let chunk = usize::from_str_radix(f.get(1).copied().unwrap_or("1"), 16).unwrap_or(1);
             let segs: Option<Vec<Seg>> = f.get(2).copied().unwrap_or("").split(';').filter(|x| !x.is_empty()).map(Seg::parse).collect();
